@@ -142,3 +142,132 @@ func canonStr(info *types.Info, e ast.Expr) string {
 	}
 	return types.ExprString(e)
 }
+
+// enclosingFuncLit returns the innermost function literal that contains n, or nil when n belongs to the
+// declared function itself.
+func enclosingFuncLit(p *Program, n ast.Node) *ast.FuncLit {
+	for x := p.Parent(n); x != nil; x = p.Parent(x) {
+		switch l := x.(type) {
+		case *ast.FuncLit:
+			return l
+		case *ast.FuncDecl:
+			return nil
+		}
+	}
+	return nil
+}
+
+// closureParamArgs: v is a parameter of a function literal inside decl. When the literal is bound to a
+// local variable that has this one definition and is used only as the function of call expressions (it does
+// not escape), the arguments the parameter receives at all those calls are returned; a literal invoked on
+// the spot yields the one argument. isClosureParam reports whether v is a literal's parameter at all; ok is
+// false when the call sites cannot be enumerated (the closure escapes, is re-assigned, is variadic).
+func closureParamArgs(p *Program, info *types.Info, decl *ast.FuncDecl, v types.Object) (args []ast.Expr, isClosureParam, ok bool) {
+	var lit *ast.FuncLit
+	idx := -1
+	ast.Inspect(decl.Body, func(n ast.Node) bool {
+		l, isLit := n.(*ast.FuncLit)
+		if !isLit || lit != nil {
+			return lit == nil
+		}
+		k := 0
+		for _, f := range l.Type.Params.List {
+			if len(f.Names) == 0 {
+				k++
+			}
+			for _, nm := range f.Names {
+				if info.ObjectOf(nm) == v {
+					lit, idx = l, k
+				}
+				k++
+			}
+		}
+		return true
+	})
+	if lit == nil {
+		return nil, false, false
+	}
+	if sig, _ := info.TypeOf(lit).(*types.Signature); sig == nil || sig.Variadic() {
+		return nil, true, false
+	}
+	var par ast.Node = p.Parent(lit)
+	for {
+		if pe, isP := par.(*ast.ParenExpr); isP {
+			par = p.Parent(pe)
+			continue
+		}
+		break
+	}
+	switch x := par.(type) {
+	case *ast.CallExpr:
+		if ast.Unparen(x.Fun) == ast.Expr(lit) && idx < len(x.Args) {
+			switch p.Parent(x).(type) {
+			case *ast.GoStmt, *ast.DeferStmt:
+			}
+			return []ast.Expr{x.Args[idx]}, true, true
+		}
+		return nil, true, false
+	case *ast.AssignStmt, *ast.ValueSpec:
+		var bound types.Object
+		switch s := x.(type) {
+		case *ast.AssignStmt:
+			for i, r := range s.Rhs {
+				if ast.Unparen(r) == ast.Expr(lit) && len(s.Lhs) == len(s.Rhs) {
+					if id, isId := ast.Unparen(s.Lhs[i]).(*ast.Ident); isId {
+						bound = info.ObjectOf(id)
+					}
+				}
+			}
+		case *ast.ValueSpec:
+			for i, r := range s.Values {
+				if ast.Unparen(r) == ast.Expr(lit) && i < len(s.Names) {
+					bound = info.ObjectOf(s.Names[i])
+				}
+			}
+		}
+		bv, isVar := bound.(*types.Var)
+		if !isVar || bv.IsField() || bv.Pkg() == nil || bv.Parent() == bv.Pkg().Scope() {
+			return nil, true, false
+		}
+		// one definition; every other occurrence is the function of a call
+		defs, escapes := 0, false
+		ast.Inspect(decl.Body, func(n ast.Node) bool {
+			id, isId := n.(*ast.Ident)
+			if !isId || info.ObjectOf(id) != bound {
+				return true
+			}
+			switch q := p.Parent(id).(type) {
+			case *ast.AssignStmt:
+				for _, l := range q.Lhs {
+					if l == ast.Expr(id) {
+						defs++
+						return true
+					}
+				}
+				escapes = true
+			case *ast.ValueSpec:
+				for _, nm := range q.Names {
+					if nm == id {
+						defs++
+						return true
+					}
+				}
+				escapes = true
+			case *ast.CallExpr:
+				if q.Fun == ast.Expr(id) && idx < len(q.Args) {
+					args = append(args, q.Args[idx])
+				} else {
+					escapes = true
+				}
+			default:
+				escapes = true
+			}
+			return true
+		})
+		if defs != 1 || escapes {
+			return nil, true, false
+		}
+		return args, true, true
+	}
+	return nil, true, false
+}
